@@ -170,6 +170,11 @@ pub struct ActorSpec {
     /// how often `stopped()` yields before it returns (so that things can happen "during stopped")
     #[serde(default)]
     pub stopped_yields: u32,
+    /// builder entry points: in which order and on which builder stage timeout / fail_on_timeout
+    /// are set (0: base timeout,fail  1: base fail,timeout  2: channel stage timeout,fail
+    /// 3: channel stage fail,timeout  4: fail on base, timeout on channel stage  5: the reverse)
+    #[serde(default)]
+    pub cfg_order: u8,
 }
 impl ActorSpec {
     /// mailbox bound the library really applies: only the builder entry points take it
@@ -197,6 +202,7 @@ impl Default for ActorSpec {
             on_start: vec![],
             stream: None,
             stopped_yields: 0,
+            cfg_order: 0,
         }
     }
 }
